@@ -4,7 +4,7 @@
    sweeps both against encoding_rs over the whole repertoire on every run.
    [gen_codec] is the table gen/argcodec.py reads out of encode_args / decode_args_with_abi. *)
 From TV Require Import Base.I32 Model.Abi Model.Intrinsic Spec.AbiFit Gen.ArgCodec
-  Proofs.AbiBytes Proofs.AbiRoundtrip Proofs.AbiNoPanic Proofs.IntrinsicPlace Proofs.AbiGen.
+  Proofs.AbiBytes Proofs.AbiRoundtrip Proofs.AbiNoPanic Proofs.IntrinsicPlace Proofs.AbiReencode Proofs.AbiGen.
 Open Scope Z_scope.
 
 (* (1) decode o encode = id.  For every signature accepted by abi.rs validate() with at most as many
@@ -24,6 +24,20 @@ Theorem C12_decode_encode :
   r_warn r = [] -> zlen (r_blob r) < 2 ^ 32 ->
   decode_call sjis_dec gen_codec sig r = Ok (args, []).
 Proof. exact (fun e d rp h1 h2 => decode_encode e d rp h1 h2 gen_codec gen_codec_ok). Qed.
+
+(* (1') encode o decode = id: a blob (of bytes) and a mask that decode without any warning -- no leftover
+        bytes, no unused mask bits, zero padding -- re-encode to exactly that blob and mask.  Signatures without
+        strings and timeline arg0 (an over-padded string decodes without a warning and re-encodes shorter;
+        that direction is not claimed); [mask_canonical]: no mask bit on an always-immediate parameter
+        (the decoder ignores such a bit without a warning -- a known TODO in decode_args_with_abi). *)
+Theorem C12_encode_decode :
+  forall (sjis_enc : list Z -> option bytes) (sjis_dec : bytes -> option (list Z)) has_regs sig blob mask args st,
+  forallb plain_enc sig = true -> forallb (enc_known gen_codec) sig = true -> bytes_ok blob -> 0 <= mask ->
+  nparams sig <= cd_mask_bits gen_codec -> mask_canonical gen_codec sig mask = true ->
+  decode_call sjis_dec gen_codec sig (mkres blob mask None []) = Ok (args, []) ->
+  has_regs = true \/ existsb a_reg args = false ->
+  encode_args sjis_enc gen_codec has_regs sig args st = Ok (mkres blob mask None [], st).
+Proof. exact (fun e d => encode_decode e d gen_codec gen_codec_ok gen_codec_reenc). Qed.
 
 (* (2) values that do not fit are diagnosed, not silently changed: every narrowing cast of the table is
        range-checked (side condition [all_checked gen_codec], discharged by computation on the generated
@@ -79,3 +93,12 @@ Proof.
   eexists; eexists. split; [vm_compute; reflexivity|]. split; [reflexivity|]. split; [reflexivity|].
   split; [discriminate|]. vm_compute. reflexivity.
 Qed.
+
+Example C12_encode_decode_instance :
+  let sig := [EInt 2 false false false; EPad 1; EFloat false] in
+  let blob := [255; 255; 0; 0; 0; 128; 63] in
+  let args := [mkarg (AInt 65535) false; mkarg (AFloat 1065353216) true] in
+  forallb plain_enc sig = true /\ forallb (enc_known gen_codec) sig = true /\ mask_canonical gen_codec sig 2 = true /\
+  decode_call (fun _ => None) gen_codec sig (mkres blob 2 None []) = Ok (args, []) /\
+  encode_args (fun _ => None) gen_codec true sig args None = Ok (mkres blob 2 None [], None).
+Proof. cbv zeta. repeat split; vm_compute; reflexivity. Qed.
